@@ -292,8 +292,11 @@ fn btpe<R: Rng + ?Sized>(btpe: Btpe, flipped: bool, rng: &mut R) -> u64 {
             }
         } else {
             // Step 4: Region 4, right exponential tail.
-            y = (x_r - v.ln() / lambda_r) as u64; // `as` cast saturates
-            if y > btpe.n {
+            let y_tmp = x_r - v.ln() / lambda_r;
+            y = y_tmp as u64; // `as` cast saturates
+            // `v == 0` gives `y_tmp = inf`, which saturates to `u64::MAX`; that must be
+            // rejected even when `n == u64::MAX` (otherwise Step 5.1 iterates ~2^63 times)
+            if y > btpe.n || !y_tmp.is_finite() {
                 #[cfg(rand_distr_verif)]
                 crate::verif_hooks::probe(31);
                 continue;
